@@ -90,13 +90,16 @@ def showErr : Err → String
 
 def showIds (l : List FileRec) : String := " ".intercalate (l.map fun f => toString f.id)
 
-/-- values the model cannot interpret as the code would (see `Model/Find.lean`):
-a `doy` needs `1 ≤ doy ≤ 366` and `1 ≤ year ≤ 9998` -/
+/-- values the model cannot interpret as the code would (see `Model/Find.lean`): with a
+`doy` the code computes `datetime(year,1,1) + timedelta(doy-1)` outside its `try`, which
+raises for `year = 0`, for `year = 1 ∧ doy = 0` and beyond year 9999 -/
 def levelsSupported (f : FileRec) : Bool :=
   let acc := f.dirs.foldl (fun a v => a.merge v.t) ({} : TAttr)
   match acc.doy with
   | none => true
-  | some n => 1 ≤ n && n ≤ 366 && (match acc.stdYear with | some y => 1 ≤ y && y ≤ 9998 | none => false)
+  | some n => (match acc.stdYear with
+      | some y => 1 ≤ y && y ≤ 9990 && (1 ≤ n || 2 ≤ y)
+      | none => false)
 
 /-- ops shared by both drivers; `none` = not a shared op -/
 def stepCommon (s : St) (ws : List String) : Option (St × String) :=
